@@ -576,6 +576,83 @@ func TestBounded_C15(t *testing.T) {
 		}
 	}
 	bStat("C15.tall_tree_pairs", tall)
+	// versions written and read through one small shared node cache (eviction pressure): the
+	// diff must still recognise common subtrees by name and skip them
+	cached := 0
+	for _, bf := range []uint{4, 16} {
+		st := newBStore("mem://smallcache")
+		var cache NodeCache = newBLRU(64)
+		if bf == 4 {
+			cache = NewNodeCache(64)
+		}
+		cfg := bCfg(st, cache)
+		m, err := NewRoot(&CreateRemoteOptions{BranchFactor: bf}).LoadMast(bctx, cfg)
+		if err != nil {
+			continue
+		}
+		n := 20000
+		model := map[int]int{}
+		for k := 1; k <= n; k++ {
+			m.Insert(bctx, k, k%7)
+			model[k] = k % 7
+		}
+		r0, err := m.MakeRoot(bctx)
+		if err != nil {
+			continue
+		}
+		roots := []*Root{r0}
+		m0 := bCopyModel(model)
+		for i := 0; i < 25; i++ {
+			m, err = roots[len(roots)-1].LoadMast(bctx, cfg)
+			if err != nil {
+				break
+			}
+			k := 37 + i*701
+			m.Insert(bctx, k, 100+i)
+			model[k] = 100 + i
+			r, err := m.MakeRoot(bctx)
+			if err != nil {
+				break
+			}
+			roots = append(roots, r)
+		}
+		first, latest := roots[0], roots[len(roots)-1]
+		ra, _ := bReachRoot(first, st)
+		rb, _ := bReachRoot(latest, st)
+		d := 0
+		for x := range ra {
+			if !rb[x] {
+				d++
+			}
+		}
+		for x := range rb {
+			if !ra[x] {
+				d++
+			}
+		}
+		for dir, pair := range [][2]*Root{{first, latest}, {latest, first}} {
+			oldT, err1 := pair[0].LoadMast(bctx, cfg)
+			newT, err2 := pair[1].LoadMast(bctx, cfg)
+			if err1 != nil || err2 != nil {
+				continue
+			}
+			st.reset()
+			got, _, err := bDiffIter(newT, oldT, 0, 0)
+			reads := st.distinctLoads()
+			cached++
+			want := bModelDiff(m0, model)
+			if dir == 1 {
+				want = bModelDiff(model, m0)
+			}
+			if err != nil || fmt.Sprint(got) != fmt.Sprint(want) {
+				bViolation(t, "C06", "diffiter-wrong", "bf=%d, %d entries, 25 small updates written and read through a 64-entry node cache, direction %d: DiffIter reported %v (err %v), expected %v", bf, n, dir, got, err, want)
+			}
+			if reads > 2*d+2 {
+				bViolation(t, "C15", "diffiter-cost-small-cache", "bf=%d, %d entries, 25 small updates written and read through a 64-entry node cache, direction %d: DiffIter read %d distinct nodes from the store, D=%d nodes differ (bound 2*D+2=%d)", bf, n, dir, reads, d, 2*d+2)
+			}
+		}
+	}
+	bStat("C15.small_cache_pairs", cached)
 }
 
 func bMaxKey(m map[int]int) int {
